@@ -815,6 +815,61 @@ fn dev_full_ok() -> bool {
     }
 }
 
+/// Runs `fqsim c19-crash <spec>` and returns its exit code (137 = killed at the planned call).
+fn run_crash_child(spec: &str) -> Result<i32, &'static str> {
+    let exe = std::env::current_exe().map_err(|_| "no_current_exe")?;
+    let mut child = std::process::Command::new(exe)
+        .arg("c19-crash")
+        .arg(spec)
+        .stdin(std::process::Stdio::null())
+        .stdout(std::process::Stdio::null())
+        .stderr(std::process::Stdio::null())
+        .spawn()
+        .map_err(|_| "crash_child_spawn_failed")?;
+    let t0 = std::time::Instant::now();
+    loop {
+        match child.try_wait() {
+            Ok(Some(st)) => return Ok(st.code().unwrap_or(-1)),
+            Ok(None) => {
+                if t0.elapsed().as_secs() >= 20 {
+                    let _ = child.kill();
+                    let _ = child.wait();
+                    return Err("crash_child_hung");
+                }
+                std::thread::sleep(std::time::Duration::from_micros(300));
+            }
+            Err(_) => return Err("crash_child_wait_failed"),
+        }
+    }
+}
+
+/// `fqsim c19-crash <spec json>`: the writer that dies. Builds the QR code and the renderer as
+/// the parent did, arms the crash clock and calls `to_file`; `_exit(137)` happens inside the
+/// shim right before the planned system call.
+pub fn crash_child_main(args: &[String]) -> i32 {
+    crate::quiet_panics();
+    let Some(a) = args.first() else { return 2 };
+    let v: serde_json::Value = match serde_json::from_str(a) {
+        Ok(v) => v,
+        Err(_) => return 2,
+    };
+    let Ok(op) = serde_json::from_value::<IoOp>(v["op"].clone()) else { return 2 };
+    let path = v["path"].as_str().unwrap_or("").to_string();
+    let k = v["kill_at"].as_u64().unwrap_or(0) as u32;
+    if let Some(d) = v["cwd"].as_str() {
+        let _ = std::env::set_current_dir(d);
+    }
+    let Ok(prep) = prepare(&op) else { return 3 };
+    let mut plan = op.plan.resolve(prep.expected.len());
+    plan.kill_at = Some(k);
+    shim::arm(plan);
+    let _ = catch_unwind(AssertUnwindSafe(|| match op.kind {
+        Kind::Svg => svg_builder_from(&prep.setters).to_file(&prep.qr, &path).map_err(|_| ()),
+        Kind::Png => img_builder_from(&prep.setters).to_file(&prep.qr, &path).map_err(|_| ()),
+    }));
+    0
+}
+
 /// `{path}` the target as given, `{dir}` its directory, `{name}` its file name, `{stem}` the
 /// name without its last extension, `{pid}` this process.
 fn expand_litter(template: &str, path: &str) -> String {
@@ -1073,28 +1128,15 @@ pub fn exec_op(dir: &Path, idx: usize, op: &IoOp, stats: &mut Stats, pre: Option
         }
     }
 
-    // 3c. crash and restart: the call runs in a forked child that is killed at its k-th system call
+    // 3c. crash and restart: the call runs in another process that is killed at its k-th system call
     if let (Some(k), None) = (op.crash_at, pre) {
-        let mut plan = op.plan.resolve(expected.len());
-        plan.kill_at = Some(k);
-        let _ = std::io::Write::flush(&mut std::io::stdout());
-        let pid = unsafe { libc::fork() };
-        if pid == 0 {
-            shim::arm(plan);
-            let _ = catch_unwind(AssertUnwindSafe(|| match op.kind {
-                Kind::Svg => svg_b.as_ref().unwrap().to_file(qr, &path).map_err(|_| ()),
-                Kind::Png => img_b.as_ref().unwrap().to_file(qr, &path).map_err(|_| ()),
-            }));
-            unsafe { libc::_exit(0) }
-        }
-        if pid < 0 {
-            return skip(rep, "fork_failed", stats);
-        }
-        let mut status: libc::c_int = 0;
-        unsafe {
-            libc::waitpid(pid, &mut status, 0);
-        }
-        let code = if libc::WIFEXITED(status) { libc::WEXITSTATUS(status) } else { -1 };
+        // A separate process image (not a fork of this one: a forked copy would inherit locks and
+        // "already started" flags of helper threads that do not exist in it).
+        let spec = serde_json::json!({"op": op, "path": path, "kill_at": k, "cwd": dir.to_string_lossy()});
+        let code = match run_crash_child(&spec.to_string()) {
+            Ok(c) => c,
+            Err(why) => return skip(rep, why, stats),
+        };
         if code == 137 {
             stats.bump("fired:crash_mid_call", 1);
             stats.tuples.insert(format!("{:?}|crash_at_syscall={}|{}", op.kind, k.min(12), if expected.len() > 65536 { ">64K" } else { "<=64K" }));
